@@ -1,5 +1,5 @@
-\* C18: Project.tla as the pinned tree behaves, all four (resolver layout x exec layout) combinations;
-\* the projected state graph (-workers 1) for replay into the real generator (quick tier).
+\* Project.tla as the PINNED TREE behaves (Dev = all named deviations): prints every labelled edge of
+\* the projected state graph (-workers 1) for replay into the real generator (thorough tier: deep histories, sampled).
 \* 2 resolver fields (Query.f1, T.g) x 2 schema files x 3 edit records x 2 helper tokens x 5 import
 \* tokens x both resolver layouts x histories <= 4.  Measured: see notes/C19.md.
 INIT Init
@@ -11,14 +11,14 @@ CONSTANTS
   TypeOf <- MCTypeOf2
   RootTypes <- MCRoot
   Edits <- MCEdits
-  HelperToks <- MCHelpersH
-  ImportToks <- MCImportsA
+  HelperToks <- MCHelpersQ
+  ImportToks <- MCImportsS
   CmtToks <- MCCmt
   NeverPruned <- MCNever
-  Cfgs <- MCCfgsAll
+  Cfgs <- MCCfgs
   ImpPairs <- MCImpQ
   InitSchemas <- MCInit2P
-  MaxHist = 4
+  MaxHist = 5
   Dev <- MCAllDevs
 VIEW View
 INVARIANTS TypeOK SchemaOK LayoutOK GenerateTotal
